@@ -12,7 +12,7 @@ RULE = ('Part bigbp: a few arrays of 2.1-16 million values through mv_to_bp / bp
         'the same arguments parse to the same values again after the first result was edited in place. '
         'Part bits: integer arrays of every dtype u/i 8..64, ndim 1..3 -> unpackbits/packbits inverse, bit i = (x >> i) & 1, padding/truncation '
         'as documented, popcount. non-trivial: pattern count not a multiple of 8, or ndim >= 3, or dtype wider than 8 bits, or an alias '
-        'character used; distinct by SHA-1 of the case.')
+        'character used; distinct by SHA-1 of the case. Vectors given item by item arrive as list, tuple, generator or iterator (interpret() documents \'Iterable\').')
 ASSUMPTIONS = ['little-endian host (unpackbits views the bytes of the array); for byte-swapped dtypes only the pack/unpack inversion is checked',
                'mvarray with k>=2 vectors of length S>=2 (otherwise the result rank is ambiguous by construction of the function)']
 
@@ -74,7 +74,8 @@ def str_cases(draw, tier):
     sel = draw(st.lists(st.integers(0, 4), min_size=k * S, max_size=k * S))
     aslist = draw(st.lists(st.booleans(), min_size=k, max_size=k))
     delim = draw(st.sampled_from(['\n', ',', ' ', ';', ', ', '\r\n', ' | ', '::']))      # mv_str(delim=...) takes any string
-    return dict(codes=codes, sel=sel, aslist=aslist, delim=delim)
+    kinds = draw(st.lists(st.sampled_from([0, 0, 0, 1, 2, 3]), min_size=k, max_size=k))       # container of a vector given item by item: list, tuple, generator, iterator
+    return dict(codes=codes, sel=sel, aslist=aslist, delim=delim, kinds=kinds)
 
 
 def prop_str(case):
@@ -94,16 +95,28 @@ def prop_str(case):
             vecs.append(''.join(items))
         alias_used |= any(not (isinstance(x, str) and x in CHARS) for x in items)
     exp = np.array(codes, dtype=np.uint8).T       # (S, k): patterns on the last axis
+    kinds = case.get('kinds', [0] * k)
+    base = vecs
+
+    class Fresh:                                  # interpret() documents 'Iterable': lists given as tuples, generators or iterators (made anew for every call)
+        def __iter__(self):
+            return iter([v if isinstance(v, str) or kinds[p] == 0 else tuple(v) if kinds[p] == 1 else (x for x in v) if kinds[p] == 2 else iter(v)
+                         for p, v in enumerate(base)])
+
+        def __repr__(self):
+            return repr([v if isinstance(v, str) or kinds[p] == 0 else ('tuple', 'generator', 'iterator')[kinds[p] - 1] + repr(v) for p, v in enumerate(base)])
+    vecs = Fresh()
+    lazy = any(kinds[p] >= 2 and not isinstance(v, str) for p, v in enumerate(base))
     mva = logic.mvarray(*vecs)
     if k == 1:
         exp1 = exp[:, 0]
         if mva.shape != exp1.shape or not np.array_equal(mva, exp1):
-            raise Violation(f'mvarray of one vector {vecs[0]!r}: got {mva.tolist()} expected {exp1.tolist()}')
+            raise Violation(f'mvarray of one vector {vecs!r}: got {mva.tolist()} expected {exp1.tolist()}')
     else:
         if mva.shape != exp.shape:
             raise Violation(f'mvarray of {k} vectors of length {S}: shape {mva.shape}, expected {exp.shape}')
         if not np.array_equal(mva, exp):
-            raise Violation(f'mvarray{tuple(vecs)!r} = {mva.tolist()} expected {exp.tolist()}')
+            raise Violation(f'mvarray{vecs!r} = {mva.tolist()} expected {exp.tolist()}')
     if mva.dtype != np.uint8:
         raise Violation(f'mvarray dtype {mva.dtype}')
     bpa = logic.bparray(*vecs)
@@ -133,10 +146,11 @@ def prop_str(case):
             first[...] = (first + 1 + case['sel'][0]) & 7 if name == 'mvarray' else ~first
             again = fn(*vecs)
             if not np.array_equal(again, keep):
-                raise Violation(f'{name}{tuple(vecs)!r} after an in-place edit of the array an earlier equal call returned: {again.tolist()}, '
+                raise Violation(f'{name}{vecs!r} after an in-place edit of the array an earlier equal call returned: {again.tolist()}, '
                                 f'expected {keep.tolist()}')
             labels.append('reparse_after_edit')
     if len(case['delim']) > 1: labels.append('multi_char_delim')
+    if lazy: labels.append('lazy_iterable')
     return Obs(alias_used or k % 8 != 0, labels)
 
 
